@@ -237,6 +237,14 @@ func faultErr(f hx.Fault) error {
 			return fmt.Errorf("resolver context: %w", e)
 		}
 		return e
+	case "oext":
+		// extensions holding values of the application's own Go types: an error, a named string, a
+		// value that prints itself - with text that needs escaping
+		return &ggql.Error{Base: errInjected, Extensions: map[string]interface{}{
+			"cause": errors.New("disk \"sda1\" said: C:\\temp\\new\tlog"),
+			"label": extLabel("bell\x07 del\x7f unit\x1f nl\n"),
+			"where": extPlace{"r\u00e9gion \U000e0001 \"east\""},
+		}}
 	case "ext":
 		if f.Same {
 			// one error value of the application's (a package level sentinel carrying extensions),
@@ -250,6 +258,13 @@ func faultErr(f hx.Fault) error {
 	}
 	return errInjected
 }
+
+// extLabel, extPlace: values of application types that end up in error extensions.
+type extLabel string
+
+type extPlace struct{ name string }
+
+func (p extPlace) String() string { return "place(" + p.name + ")" }
 
 // scribble overwrites an argument value in place, all the way down: members added to and removed
 // from every object, every list member replaced.
